@@ -39,7 +39,7 @@ enum Item {
 
 #[derive(Clone, Debug, Serialize, Deserialize)]
 struct Case {
-    /// Broadcast capacity = 2^(1 + cap_pow % 4)  (2, 4, 8, 16).
+    /// Broadcast capacity = 2^(1 + cap_pow % 7)  (2 .. 128; the real gossip channel holds 128).
     cap_pow: u8,
     /// Poll the subscription once before the first batch arrives.
     poll_first: bool,
@@ -82,8 +82,12 @@ fn check(case: &Case) -> CaseResult {
         .enable_all()
         .build()
         .map_err(|e| e.to_string())?;
-    rt.block_on(async {
-        let capacity = 1usize << (1 + (case.cap_pow % 4));
+    // `unconstrained`: the harness polls the subscription by hand many times inside one poll of
+    // this block_on task; tokio's cooperative budget (128 operations per task poll) would make
+    // the broadcast receiver return Pending with a *deferred* wake-up that only fires when the
+    // task yields to the scheduler – an artefact of hand-driving, not of the code under test.
+    rt.block_on(tokio::task::unconstrained(async {
+        let capacity = 1usize << (1 + (case.cap_pow % 7));
         let env = EphEnv::new(capacity).await;
         // Pool of authentic messages from a "remote" publisher (captured from the probe).
         let remote_key = SigningKey::from_bytes(&[0xB1; 32]);
@@ -207,9 +211,10 @@ fn check(case: &Case) -> CaseResult {
             .label_if(lag_seen, "batch_overflows_capacity_lag")
             .label_if(case.poll_first, "polled_before_first_arrival")
             .label_if(case.batches.len() >= 2, "arrivals_interleaved_with_polls")
+            .label_if(case.batches.iter().any(|b| b.len() >= 16), "run_of_16_or_more_buffered_items")
             .label_if(total_valid > 0 && total_invalid > 0, "mixed_valid_invalid")
             .label_if(total_valid == 0, "no_valid_item"))
-    })
+    }))
 }
 
 fn item() -> impl Strategy<Value = Item> {
@@ -224,16 +229,41 @@ fn item() -> impl Strategy<Value = Item> {
     ]
 }
 
+fn invalid_item() -> impl Strategy<Value = Item> {
+    prop_oneof![
+        2 => prop::collection::vec(any::<u8>(), 0..40).prop_map(Item::Garbage),
+        2 => (any::<u16>(), any::<u16>()).prop_map(|(n, p)| Item::FlipSignatureBit(n, p)),
+        1 => (any::<u16>(), any::<u8>()).prop_map(|(n, v)| Item::WrongVersion(n, v)),
+        1 => any::<u16>().prop_map(Item::BodyChanged),
+        1 => Just(Item::Empty),
+    ]
+}
+
 fn case() -> impl Strategy<Value = Case> {
     (
         any::<u8>(),
         any::<bool>(),
         prop::collection::vec(prop::collection::vec(item(), 0..8), 1..5),
         prop::option::weighted(0.15, prop::collection::vec(item(), 17..22)),
+        // A flood: a long run of invalid items already buffered when the consumer is polled,
+        // followed by authentic ones (per-poll skip budgets, lag followed by garbage, ...).
+        prop::option::weighted(
+            0.35,
+            (
+                prop::collection::vec(invalid_item(), 9..150),
+                prop::collection::vec(any::<u16>().prop_map(Item::Valid), 1..3),
+                any::<u16>(),
+            ),
+        ),
     )
-        .prop_map(|(cap_pow, poll_first, mut batches, big)| {
+        .prop_map(|(cap_pow, poll_first, mut batches, big, flood)| {
             if let Some(b) = big {
-                batches.push(b); // a batch larger than any capacity: guaranteed lag
+                batches.push(b); // a batch larger than the small capacities: guaranteed lag
+            }
+            if let Some((mut run, valid, at)) = flood {
+                run.extend(valid);
+                let pos = idx(at, batches.len() + 1);
+                batches.insert(pos, run);
             }
             Case {
                 cap_pow,
@@ -249,7 +279,7 @@ pub fn run(mut ctx: Ctx) -> ! {
     ctx.run_prop(
         Part::new(
             "channel_sequences",
-            "1-5 batches of 0-8 (sometimes 17-21) items (authentic, garbage, flipped signature bit, wrong version, truncated, changed body, empty) on a broadcast channel of capacity 2/4/8/16, subscription polled by a spec-compliant executor between batches; non-trivial = an authentic item preceded by an invalid one inside the same batch (already buffered at poll time)",
+            "1-6 batches of 0-8 (sometimes 17-21, sometimes a flood of 9-150 invalid items followed by authentic ones) items (authentic, garbage, flipped signature bit, wrong version, truncated, changed body, empty) on a broadcast channel of capacity 2..128, subscription polled by a spec-compliant executor between batches; non-trivial = an authentic item preceded by an invalid one inside the same batch (already buffered at poll time)",
             2_000,
             100_000,
         )
